@@ -1,9 +1,9 @@
 /* crab::wrapint AS ITS CONTRACTS, for units above wrapint (wrapped_interval).
  *
  * Every function below is the contract of units/wrapint/wrapint_contracts.h applied by hand:
- *     assert(precondition);  result := arbitrary;  assume(postcondition);
- * with the precondition and the POST_* postcondition macros taken verbatim from units/wrapint/spec.h (the
- * vocabulary in which unit wrapint PROVES these contracts of lib/wrapint.cpp under C13).  This is exactly what
+ *     assert(precondition);  result := THE value the postcondition pins down
+ * (every postcondition there has the form w_is(result, width, value): it determines all three fields), in the
+ * vocabulary of units/wrapint/spec.h in which unit wrapint PROVES these contracts of lib/wrapint.cpp under C13.  This is exactly what
  * `goto-instrument --replace-call-with-contract` does, minus the dynamic-frames bookkeeping (is_fresh maps and
  * write-set objects for every call), which for wrapped_interval makes each call cost ~20 objects and the formula
  * of operator+ 2.1M variables (measured); with this file the same obligations need a fraction of that.
@@ -16,47 +16,58 @@
 #include "../units/wrapint/spec.h"
 #include "zmodel.h"
 #define PRE(c, what) __CPROVER_assert(c, what " precondition (contract of units/wrapint)")
-#define P2(self, x) (w_ok(*(self)) && w_ok(*(x)) && (self)->f1 == (x)->f1)
-#define P1(self) (w_ok(*(self)))
-#define BIN(fn, what, EXTRA, POST) \
-void fn(W *ret, W *self, W *x){ PRE(P2(self, x) && (EXTRA), what); W r; __CPROVER_assume(POST(&r, self, x)); *ret = r; }
+/* The predicates of units/wrapint/spec.h in a cheaper, equivalent form: with m = msk(width), 2^width (0 at width 64) is
+ * m + 1, so ONE shifter per call serves w_ok of both operands and of the result (spec.h's w_ok builds two per wrapint).
+ *   w_okm(x, m)  ==  w_ok(x)               given m == msk(x.f1)
+ *   mk(w, m, v)  is the unique r with w_is(r, w, v)   given m == msk(w), v <= m
+ * (the equivalence is checked by the harness h_model_equiv of units/wrapped_interval/contracts.c) */
+static inline bool w_okm(W x, uint64_t m){ return x.f1 >= 1 && x.f1 <= 64 && x.f0 <= m && x.f2 == m + 1; }
+static inline W mk(uint64_t w, uint64_t m, uint64_t v){ W r; r.f0 = v; r.f1 = w; r.f2 = m + 1; return r; }
+#define BIN(fn, what, EXTRA, VAL) \
+void fn(W *ret, W *self, W *x){ uint64_t w = WD(self), m = msk(w), a = N(self), b = N(x); \
+  PRE(w_okm(*self, m) && w_okm(*x, m) && WD(x) == w && (EXTRA), what); *ret = mk(w, m, VAL); }
 #define CMP(fn, what, OP) \
-unsigned char fn(W *self, W *x){ PRE(P2(self, x), what); return N(self) OP N(x); }
-#define STATICW(fn, what, POST) \
-void fn(W *ret, uint64_t w){ PRE(w >= 1 && w <= 64, what); W r; __CPROVER_assume(POST(&r, w)); *ret = r; }
+unsigned char fn(W *self, W *x){ uint64_t m = msk(WD(self)); PRE(w_okm(*self, m) && w_okm(*x, m) && WD(x) == WD(self), what); return N(self) OP N(x); }
+#define STATICW(fn, what, VAL) \
+void fn(W *ret, uint64_t w){ PRE(w >= 1 && w <= 64, what); uint64_t m = msk(w); *ret = mk(w, m, VAL); }
+#define P1(self, m) w_okm(*(self), m)
 
-BIN(_ZNK4crab7wrapintplES0_, "wrapint::operator+", 1, POST_add)
-BIN(_ZNK4crab7wrapintmiES0_, "wrapint::operator-", 1, POST_sub)
-BIN(_ZNK4crab7wrapintmlES0_, "wrapint::operator*", 1, POST_mul)
-BIN(_ZNK4crab7wrapint4udivES0_, "wrapint::udiv", N(x) != 0, POST_udiv)
-BIN(_ZNK4crab7wrapint4sdivES0_, "wrapint::sdiv", N(x) != 0, POST_sdiv)
-BIN(_ZNK4crab7wrapintlsES0_, "wrapint::operator<<", N(x) < WD(self), POST_shl)
-BIN(_ZNK4crab7wrapint4lshrES0_, "wrapint::lshr", N(x) < WD(self), POST_lshr)
-BIN(_ZNK4crab7wrapint4ashrES0_, "wrapint::ashr", N(x) < WD(self), POST_ashr)
+/* values as in POST_add, POST_sub, ... of units/wrapint/spec.h (mask form) */
+BIN(_ZNK4crab7wrapintplES0_, "wrapint::operator+", 1, (a + b) & m)
+BIN(_ZNK4crab7wrapintmiES0_, "wrapint::operator-", 1, (a - b) & m)
+BIN(_ZNK4crab7wrapintmlES0_, "wrapint::operator*", 1, (a * b) & m)
+BIN(_ZNK4crab7wrapint4udivES0_, "wrapint::udiv", b != 0, (a / (b == 0 ? 1 : b)) & m)
+BIN(_ZNK4crab7wrapint4sdivES0_, "wrapint::sdiv", b != 0, wrapz(ZM_div(sxv(a, w), sxv(b == 0 ? 1 : b, w)), w))
+BIN(_ZNK4crab7wrapintlsES0_, "wrapint::operator<<", b < w, (a << (b & 63)) & m)
+BIN(_ZNK4crab7wrapint4lshrES0_, "wrapint::lshr", b < w, a >> (b & 63))
+BIN(_ZNK4crab7wrapint4ashrES0_, "wrapint::ashr", b < w, wrapz(fshr(sxv(a, w), b & 63), w))
 CMP(_ZNK4crab7wrapinteqES0_, "wrapint::operator==", ==)
 CMP(_ZNK4crab7wrapintltES0_, "wrapint::operator<", <)
 CMP(_ZNK4crab7wrapintleES0_, "wrapint::operator<=", <=)
 CMP(_ZNK4crab7wrapintgeES0_, "wrapint::operator>=", >=)
-void _ZNK4crab7wrapintngEv(W *ret, W *self){ PRE(P1(self), "wrapint::operator- (unary)"); W r; __CPROVER_assume(POST_neg(&r, self)); *ret = r; }
-W *_ZN4crab7wrapintppEv(W *self){ PRE(P1(self), "wrapint::operator++"); W o = *self, r; __CPROVER_assume(w_is(r, o.f1, (o.f0 + 1) & msk(o.f1))); *self = r; return self; }
-W *_ZN4crab7wrapintmmEv(W *self){ PRE(P1(self), "wrapint::operator--"); W o = *self, r; __CPROVER_assume(w_is(r, o.f1, (o.f0 - 1) & msk(o.f1))); *self = r; return self; }
-void _ZNK4crab7wrapint4sextEm(W *ret, W *self, uint64_t bits){ PRE(P1(self) && bits <= 64 && WD(self) + bits <= 64, "wrapint::sext"); W r; __CPROVER_assume(POST_sext(&r, self, bits)); *ret = r; }
-void _ZNK4crab7wrapint4zextEm(W *ret, W *self, uint64_t bits){ PRE(P1(self) && bits <= 64 && WD(self) + bits <= 64, "wrapint::zext"); W r; __CPROVER_assume(POST_zext(&r, self, bits)); *ret = r; }
-void _ZNK4crab7wrapint10keep_lowerEm(W *ret, W *self, uint64_t bits){ PRE(P1(self) && bits >= 1, "wrapint::keep_lower"); W r; __CPROVER_assume(POST_keep_lower(&r, self, bits)); *ret = r; }
+void _ZNK4crab7wrapintngEv(W *ret, W *self){ uint64_t w = WD(self), m = msk(w); PRE(P1(self, m), "wrapint::operator- (unary)"); *ret = mk(w, m, ((uint64_t)0 - N(self)) & m); }
+W *_ZN4crab7wrapintppEv(W *self){ uint64_t w = WD(self), m = msk(w); PRE(P1(self, m), "wrapint::operator++"); *self = mk(w, m, (N(self) + 1) & m); return self; }
+W *_ZN4crab7wrapintmmEv(W *self){ uint64_t w = WD(self), m = msk(w); PRE(P1(self, m), "wrapint::operator--"); *self = mk(w, m, (N(self) - 1) & m); return self; }
+void _ZNK4crab7wrapint4sextEm(W *ret, W *self, uint64_t bits){ uint64_t w = WD(self), m = msk(w); PRE(P1(self, m) && bits <= 64 && w + bits <= 64, "wrapint::sext");
+  uint64_t w2 = w + bits, m2 = msk(w2); *ret = mk(w2, m2, wrapz(sxv(N(self), w), w2)); }
+void _ZNK4crab7wrapint4zextEm(W *ret, W *self, uint64_t bits){ uint64_t w = WD(self), m = msk(w); PRE(P1(self, m) && bits <= 64 && w + bits <= 64, "wrapint::zext");
+  uint64_t w2 = w + bits, m2 = msk(w2); *ret = mk(w2, m2, N(self)); }
+void _ZNK4crab7wrapint10keep_lowerEm(W *ret, W *self, uint64_t bits){ uint64_t w = WD(self), m = msk(w); PRE(P1(self, m) && bits >= 1, "wrapint::keep_lower");
+  if (bits >= w) { *ret = *self; return; } uint64_t m2 = msk(bits); *ret = mk(bits, m2, N(self) & m2); }
 /* wrapint(uint64_t n, bitwidth_t w): the complete-object constructor C1 is an IR alias of C2 in lib/wrapint.cpp */
-void _ZN4crab7wrapintC2Emm(W *self, uint64_t n, uint64_t w){ PRE(w >= 1 && w <= 64, "wrapint(n, width)"); W r; __CPROVER_assume(POST_ctor_nw(&r, n, w)); *self = r; }
+void _ZN4crab7wrapintC2Emm(W *self, uint64_t n, uint64_t w){ PRE(w >= 1 && w <= 64, "wrapint(n, width)"); uint64_t m = msk(w); *self = mk(w, m, n & m); }
 void _ZN4crab7wrapintC1Emm(W *self, uint64_t n, uint64_t w){ _ZN4crab7wrapintC2Emm(self, n, w); }
 void _ZN4crab7wrapintC2EN4ikos8z_numberEm(W *self, Z *n, uint64_t w){
   PRE(w >= 1 && w <= 64 && ZV(n) >= -((i128)1 << 63) && ZV(n) < ((i128)1 << 63), "wrapint(z_number, width)");
-  W r; __CPROVER_assume(w_is(r, w, wrapz(ZV(n), w))); *self = r; }
+  uint64_t m = msk(w); *self = mk(w, m, wrapz(ZV(n), w)); }
 void _ZN4crab7wrapintC1EN4ikos8z_numberEm(W *self, Z *n, uint64_t w){ _ZN4crab7wrapintC2EN4ikos8z_numberEm(self, n, w); }
-STATICW(_ZN4crab7wrapint14get_signed_maxEm, "wrapint::get_signed_max", POST_smax)
-STATICW(_ZN4crab7wrapint14get_signed_minEm, "wrapint::get_signed_min", POST_smin)
-STATICW(_ZN4crab7wrapint16get_unsigned_maxEm, "wrapint::get_unsigned_max", POST_umax)
-STATICW(_ZN4crab7wrapint16get_unsigned_minEm, "wrapint::get_unsigned_min", POST_umin)
-unsigned char _ZNK4crab7wrapint3msbEv(W *self){ PRE(P1(self), "wrapint::msb"); return (N(self) >> (WD(self) - 1)) & 1; }
-uint64_t _ZNK4crab7wrapint12get_uint64_tEv(W *self){ PRE(P1(self), "wrapint::get_uint64_t"); return N(self); }
-uint64_t _ZNK4crab7wrapint12get_bitwidthEv(W *self){ PRE(P1(self), "wrapint::get_bitwidth"); return WD(self); }
-void _ZNK4crab7wrapint19get_unsigned_bignumEv(Z *ret, W *self){ PRE(P1(self), "wrapint::get_unsigned_bignum"); ZSET(ret, (i128)(u128)N(self)); }
-void _ZNK4crab7wrapint17get_signed_bignumEv(Z *ret, W *self){ PRE(P1(self), "wrapint::get_signed_bignum"); ZSET(ret, sxv(N(self), WD(self))); }
+STATICW(_ZN4crab7wrapint14get_signed_maxEm, "wrapint::get_signed_max", m >> 1)
+STATICW(_ZN4crab7wrapint14get_signed_minEm, "wrapint::get_signed_min", (m >> 1) + 1)
+STATICW(_ZN4crab7wrapint16get_unsigned_maxEm, "wrapint::get_unsigned_max", m)
+STATICW(_ZN4crab7wrapint16get_unsigned_minEm, "wrapint::get_unsigned_min", 0)
+unsigned char _ZNK4crab7wrapint3msbEv(W *self){ uint64_t m = msk(WD(self)); PRE(P1(self, m), "wrapint::msb"); return N(self) > (m >> 1); }
+uint64_t _ZNK4crab7wrapint12get_uint64_tEv(W *self){ PRE(P1(self, msk(WD(self))), "wrapint::get_uint64_t"); return N(self); }
+uint64_t _ZNK4crab7wrapint12get_bitwidthEv(W *self){ PRE(P1(self, msk(WD(self))), "wrapint::get_bitwidth"); return WD(self); }
+void _ZNK4crab7wrapint19get_unsigned_bignumEv(Z *ret, W *self){ PRE(P1(self, msk(WD(self))), "wrapint::get_unsigned_bignum"); ZSET(ret, (i128)(u128)N(self)); }
+void _ZNK4crab7wrapint17get_signed_bignumEv(Z *ret, W *self){ PRE(P1(self, msk(WD(self))), "wrapint::get_signed_bignum"); ZSET(ret, sxv(N(self), WD(self))); }
 unsigned char _ZN4crab7wrapint12fits_wrapintEN4ikos8z_numberEm(Z *n, uint64_t w){ return w <= 64 && ZV(n) >= -((i128)1 << 63) && ZV(n) < ((i128)1 << 63); }
